@@ -98,7 +98,11 @@ class ProgGen(object):
             self.flavour[final] = "async" if tok_kind == "a" else "sync"
         st = {"kw": kw, "text": text}
         if r.random() < o["p_table"]:
-            st["table"] = {"header": ["name", "value"], "rows": [["x", "1"], ["y|z", ""]][: r.randint(0, 2)]}
+            if r.random() < 0.3:
+                # two columns with the same heading are legal; cells are positional
+                st["table"] = {"header": ["point", "coord", "coord"], "rows": [["A", "1", "2"], ["B", "", "9"]][: r.randint(1, 2)]}
+            else:
+                st["table"] = {"header": ["name", "value"], "rows": [["x", "1"], ["y|z", ""]][: r.randint(0, 2)]}
         elif r.random() < o["p_doc"]:
             st["doc"] = r.choice(["one line", "two\n  lines", ""])
         return st
